@@ -154,6 +154,14 @@ def make_details(items):
         elif ctype == "text":
             d[name] = Content(ContentType("text", "plain", {"charset": "utf8"}),
                               lambda t=text: [t.encode("utf8")])
+        elif ctype == "override":
+            # a Content SUBCLASS that overrides iter_bytes() (the documented way to serialise differently - here it
+            # swaps the case of what the source yields): its text form is the text of THOSE bytes
+            class SwapCase(Content):
+                def iter_bytes(self):
+                    for chunk in super().iter_bytes():
+                        yield chunk.swapcase()
+            d[name] = SwapCase(ContentType("text", "plain", {"charset": "utf8"}), lambda t=text: [t.encode("utf8")])
         elif ctype == "text-split":
             # the same kind of detail read in chunks that split a multi-byte character
             whole = ("\xe9-" + text + "-\u2603").encode("utf8")
@@ -167,6 +175,8 @@ def make_details(items):
 
 def detail_bytes(text, ctype):
     """The bytes make_details() produces for one [name, text, ctype] item."""
+    if ctype == "override":
+        return text.encode("utf8").swapcase()
     if ctype == "text-split":
         return ("\xe9-" + text + "-\u2603").encode("utf8")
     return text.encode("utf8")
@@ -255,7 +265,7 @@ def random_test_spec(rng, i, tok, *, allow_no_start=False):
         items = []
         names = rng.sample(["foo", "log", "traceback", "bin", "traceback-1"], rng.randint(0, 3))
         for n in names:
-            items.append([n, tok("D"), "bin" if n == "bin" else rng.choice(["text", "text", "text-split"])])
+            items.append([n, tok("D"), "bin" if n == "bin" else rng.choice(["text", "text", "text-split", "override"])])
         if outcome == "addSkip" and rng.random() < 0.7:
             items.append(["reason", tok("R"), "text"])
         spec["details"] = items
